@@ -125,8 +125,8 @@ def r18b(ctx):
     for n in walk_no_nested(denc.node):
         if isinstance(n, ast.BinOp) and isinstance(n.op, ast.Mod) and isinstance(n.left, ast.Name) and n.left.id == "DURATION_FORMAT":
             args = [ast.unparse(a) for a in n.right.elts] if isinstance(n.right, ast.Tuple) else []
-            ok = len(args) == len(desig) and [a[0].upper() for a in args] == desig
-            ctx.instance("R18b", f"{denc.file}:{denc.ident}", f"format arguments {args} line up with designators {desig}", ok=ok, nontrivial=True, line=n.lineno)
+            ok = len(args) == len(desig)  # which value goes to which designator is decided by the unit table below
+            ctx.instance("R18b", f"{denc.file}:{denc.ident}", f"{len(args)} format arguments for designators {desig}", ok=ok, nontrivial=True, line=n.lineno)
             if not ok:
                 ctx.report("R18b", denc, n, f"{args} vs {desig}", "values passed to DURATION_FORMAT are not in designator order")
     # sign symmetry
@@ -142,11 +142,24 @@ def r18b(ctx):
         ctx.report("R18b", ddec, ddec.node, f"prefixes {sorted(starts)}", "sign prefix written by Duration.encode is not the one Duration.decode accepts")
     # decode applies the sign to every component it parsed
     comps = {}
+    comp_var = {}
+    # the sign local: assigned 1 and -1 (and nothing else)
+    sign_vals: dict[str, set] = {}
+    for n in walk_no_nested(ddec.node):
+        if isinstance(n, ast.Assign) and len(n.targets) == 1 and isinstance(n.targets[0], ast.Name):
+            v = repo.fold(n.value, ddec.module)
+            sign_vals.setdefault(n.targets[0].id, set()).add(v if isinstance(v, int) and not isinstance(v, bool) else "?")
+    sign_vars = {k for k, v in sign_vals.items() if v == {1, -1}}
     for n in walk_no_nested(ddec.node):
         if isinstance(n, ast.Call) and isinstance(n.func, ast.Name) and n.func.id == "timedelta":
             for k in n.keywords:
                 comps[k.arg] = ast.unparse(k.value)
-    ok = len(comps) >= 4 and all("sign" in v and k in v for k, v in comps.items())
+                e = k.value
+                if isinstance(e, ast.BinOp) and isinstance(e.op, ast.Mult) and isinstance(e.left, ast.Name) and isinstance(e.right, ast.Name):
+                    names = [e.left.id, e.right.id]
+                    if len([x for x in names if x in sign_vars]) == 1:
+                        comp_var[k.arg] = next(x for x in names if x not in sign_vars)
+    ok = len(comps) >= 4 and set(comp_var) == set(comps)
     ctx.instance("R18b", f"{ddec.file}:{ddec.ident}", f"timedelta components {comps}", ok=ok, nontrivial=True)
     if not ok:
         ctx.report("R18b", ddec, ddec.node, f"timedelta({comps})", "a parsed component is not signed or feeds another unit")
@@ -166,7 +179,7 @@ def r18b(ctx):
                             arm_var[t.comparators[0].value] = st.targets[0].id
     for d, var in sorted(arm_var.items()):
         kw = UNIT[d][0]
-        ok = kw in comps and re.search(rf"\b{re.escape(var)}\b", comps[kw]) is not None
+        ok = comp_var.get(kw) == var
         ctx.instance("R18b", f"{ddec.file}:{ddec.ident}", f"designator {d}: parsed into {var}, passed as timedelta({kw}=…)", ok=ok, nontrivial=True)
         if not ok:
             ctx.report("R18b", ddec, ddec.node, f"designator {d} -> {var} -> {comps}",
